@@ -16,3 +16,38 @@ MUTATIONS = [
 CONTROLS = [
     ("C06", "timeoutdict-bookkeeping-variant", [(TD, "        if self._timeout is None:\n            self._start_over()\n            # No need to add the key, it'll live for this duration anyway", "        if self._timeout is None:\n            self._start_over()\n            self._recently_accessed.add(key)\n            # (adding the key as well: still within [T, 2T])")]),
 ]
+
+# ---- second part: combined Block1 + Block2, methods, size exponents, lifetimes of combined transfers ----
+IF = "aiocoap/interfaces.py"
+
+MUTATIONS += [
+    # the rendering made for a completed upload is not kept: the follow-ups for its later blocks get 4.08
+    ("C06", "combined-rendering-of-upload-not-kept", [(BW, "            self._completes[block_key] = assembled\n", "            if req.opt.block1 is None:\n                self._completes[block_key] = assembled\n")]),
+    # the Block2 option of the final request block is not taken over into the assembled request: the response to
+    # the completed upload comes whole instead of as block 0 of the size asked for
+    ("C06", "combined-final-block2-option-lost", [(MSG, "            if not block1.more and next_block.opt.block2 is not None:\n                self.opt.block2 = next_block.opt.block2\n", "")]),
+    # a follow-up that carries a payload (FETCH / POST repeating their body) is rendered anew instead of being cut
+    # from the rendering of the block-0 request
+    ("C06", "payload-bearing-followup-renders-again", [(BW, "        if req.opt.block2 is None or req.opt.block2.block_number == 0:\n            assembled = await response_builder()", "        if req.opt.block2 is None or req.opt.block2.block_number == 0 or (len(req.payload) > 0 and req.opt.block1 is None):\n            assembled = await response_builder()")]),
+    # the block key forgets the method: FETCH and POST with the same options share assemblies and renderings
+    ("C06", "block-key-without-method", [(BW, "        message.code,\n        message.get_cache_key(", "        None,\n        message.get_cache_key("),
+                                         (BW, "                OptionNumber.OBSERVE,\n            ]\n        ),\n", "                OptionNumber.OBSERVE,\n            ]\n        )[1],\n")]),
+    # BERT on UDP: the reserved size exponent 7 yields multi-kilobyte "blocks"
+    ("C06", "bert-blocks-served-on-udp", [(IF, "        return 1124\n", "        return 2248\n")]),
+    # a later block asked for with a grown size that covers the whole rendering is answered with the whole rendering
+    ("C06", "later-block-whole-when-size-grown", [(BW, "                or req.opt.block2.block_number != 0\n", "")]),
+    # a follow-up does not count as a use of the rendering: a transfer that takes longer than twice the lifetime breaks
+    ("C06", "followup-does-not-refresh-rendering", [(BW, "                assembled = self._completes[block_key]\n", "                assembled = self._completes._items[block_key]\n"),
+                                                    (BW, "            self._completes[block_key] = assembled\n", "            if req.opt.block2 is None or req.opt.block2.block_number == 0:\n                self._completes[block_key] = assembled\n")]),
+    # a completed upload is rendered twice
+    ("C06", "completed-upload-rendered-twice", [(IF, "            req = self._block1.feed_and_take(req)\n", "            req = self._block1.feed_and_take(req)\n            if req.opt.block1 is not None and (req.opt.block2 is None or req.opt.block2.block_number == 0):\n                await self.render(req)\n")]),
+    # a block-0 request is served from the rendering kept for an earlier one
+    ("C06", "block0-served-from-kept-rendering", [(BW, "        if req.opt.block2 is None or req.opt.block2.block_number == 0:\n            assembled = await response_builder()", "        if (req.opt.block2 is None or req.opt.block2.block_number == 0) and block_key not in self._completes._items:\n            assembled = await response_builder()")]),
+]
+
+CONTROLS += [
+    # the reserved exponent 7 answered with exponent 6 (same 1024-byte slices): admissible
+    ("C06", "szx7-answered-with-szx6", [(BW, "                block2.block_number,\n                block2.size_exponent,\n", "                block2.block_number,\n                min(block2.size_exponent, 6),\n")]),
+    # the statement asks for the Block1 echo on intermediate blocks only
+    ("C06", "final-response-without-block1-echo", [(IF, "            res.opt.block1 = req.opt.block1\n", "            pass\n")]),
+]
